@@ -456,6 +456,9 @@ func c10ExecFrom(c *fw.Ctx, k int, prefix string, hist []c10Sym) bool {
 }
 
 func c10Run1(c *fw.Ctx) {
+	{
+		interfRun(c, "C10") // statement-level interleavings of operations on disjoint objects (subprocess)
+	}
 	c10Payloads(c, c.Shard, c.NShards)
 	// nsym = 1: the alphabet without the symbols whose mirror image on the other connection is kept
 	type cfg struct{ k, depth, nsym int }
